@@ -623,6 +623,8 @@ TplNoDep   == TP("c13", "u1", "u2", ("htltone" :> 1), "s9", T0, T0, TRUE)    \* 
 TplPlainAsset == TP("c14", "u1", "u2", ("htltone" :> 1), "s2", T0, T0, FALSE) \* ordinary contract in an asset denom
 
 TemplatesPlain == {TplMulti, TplSelf, TplOtherTs, TplSame}
+TemplatesPlainBig == {TplMulti, TplSelf, TplOtherTs, TplSame, TplBlocked}
+TemplatesOneBig == {TplIn1, TplIn1b, TplOut1, TplPlainAsset, TplBadTs, TplNoDep}
 TemplatesAssets == {TplIn1, TplOut1, TplIn2, TplIn2b, TplPlainAsset}
 TemplatesOne == {TplIn1, TplOut1, TplPlainAsset}
 TemplatesTwo == {TplIn2, TplIn2b, TplOut2}
